@@ -113,9 +113,9 @@ func check(tt *testing.T, c Case) (pbt.Info, error) {
 	protocol := ""
 	switch {
 	case c.Method != "POST" || (c.Kind == prog.Bidi && c.ProtoMajor < 2):
-	case ct == "application/grpc" || strings.HasPrefix(ct, "application/grpc+"):
+	case ct == "application/grpc" || ct == "application/grpc+proto" || ct == "application/grpc+json":
 		protocol = "grpc"
-	case ct == "application/grpc-web" || strings.HasPrefix(ct, "application/grpc-web+"):
+	case ct == "application/grpc-web" || ct == "application/grpc-web+proto" || ct == "application/grpc-web+json":
 		protocol = "grpcweb"
 	case c.Kind == prog.Unary && (ct == "application/proto" || ct == "application/json"):
 		protocol = "connect"
@@ -128,6 +128,15 @@ func check(tt *testing.T, c Case) (pbt.Info, error) {
 		}
 		if protocol != "" && c.Fault != "random" {
 			return info, fmt.Errorf("%s: request selects %s but got a bare %d", where, protocol, rec.Status)
+		}
+		return info, nil
+	}
+	if protocol == "" && c.Fault == "ctvariant" {
+		// not an advertised spelling: if the handler chooses to serve it anyway the
+		// answer must still be a well-formed response of the request's protocol
+		raw := &refwire.Response{Status: rec.Status, Header: rec.Header, Body: rec.Body, Trailer: rec.Trailer}
+		if _, derr := refwire.DecodeResponse(c.Protocol, c.Kind, ct, raw); derr != nil {
+			return info, fmt.Errorf("%s: neither a bare 415 nor a well-formed %s response: %v", where, c.Protocol, derr)
 		}
 		return info, nil
 	}
@@ -207,8 +216,8 @@ func kvs(h http.Header) []prog.KV {
 	return out
 }
 
-var badTimeoutsGRPC = []string{"5", "S", "5s", "5x", "5 S", "1.5S", "abcS", "999999999S", "100000000n", "5SS", "+S"}
-var badTimeoutsConnect = []string{"5S", "abc", "1.5", "1e3", "12345678901", "99999999999999999999", " 5", "5 ", "1,000"}
+var badTimeoutsGRPC = []string{"5", "S", "5s", "5x", "5 S", "1.5S", "abcS", "999999999S", "100000000n", "5SS", "+S", "10000000000S", "100000000H", "999999999999M", "123456789012345678901234567890n", "99999999999999999u"}
+var badTimeoutsConnect = []string{"5S", "abc", "1.5", "1e3", "12345678901", "99999999999999999999", " 5", "5 ", "1,000", "10000000000", "123456789012345678901234567890"}
 
 func gen(t *rapid.T) Case {
 	c := Case{
@@ -237,7 +246,7 @@ func gen(t *rapid.T) Case {
 	}
 	req := build()
 	c.Header, c.Body = kvs(req.Header), req.Body
-	faults := []string{"none", "flags", "truncate", "lyinglen", "unknowncomp", "compnoheader", "corruptcomp", "undecodable", "timeout", "oversize", "random"}
+	faults := []string{"none", "flags", "truncate", "lyinglen", "unknowncomp", "compnoheader", "corruptcomp", "undecodable", "timeout", "oversize", "random", "ctvariant"}
 	c.Fault = rapid.SampledFrom(faults).Draw(t, "fault")
 	// the fault is applied to message index k (all earlier ones stay intact)
 	k := 0
@@ -338,6 +347,27 @@ func gen(t *rapid.T) Case {
 		req = build()
 		c.Header, c.Body = kvs(req.Header), req.Body
 		c.ReadMax = 1000
+	case "ctvariant":
+		// a spelling variant of a served Content-Type: parameters, case, blanks
+		ct := hdr(c.Header).Get("Content-Type")
+		switch rapid.IntRange(0, 6).Draw(t, "ctvar") {
+		case 0:
+			ct += "; charset=utf-8"
+		case 1:
+			ct += ";x=y"
+		case 2:
+			ct = strings.ToUpper(ct[:1]) + ct[1:]
+		case 3:
+			ct = strings.ToUpper(ct)
+		case 4:
+			ct = " " + ct
+		case 5:
+			ct += " "
+		default:
+			ct = strings.Replace(ct, "/", "/ ", 1)
+		}
+		c.Header = setKV(c.Header, "Content-Type", ct)
+		c.Intact = n
 	case "random":
 		c.Method = rapid.SampledFrom([]string{"POST", "POST", "POST", "GET", "PUT"}).Draw(t, "method")
 		c.ProtoMajor = rapid.SampledFrom([]int{1, 2, 2}).Draw(t, "major")
